@@ -203,8 +203,15 @@ func TestC10(t *testing.T) {
 					}
 				}
 				c := &zoo.TimeCarrier{T: l[0], L: l, M: map[string]time.Time{mkString(0, pad, 0, 0, 1): l[1]}}
-				if stage, err, _ := roundTrip(c); err != nil {
+				stage, err, plain := roundTrip(c)
+				if err != nil {
 					directFail(t, "C10", map[string]interface{}{"stream_pad": fmt.Sprint(pad), "whole_seconds": whole}, "C10 list of %d timestamps after %d pad characters: %s: %v", len(l), pad, stage, err)
+				}
+				if pad == 0 {
+					_, nm := hessian.ExtractTypeNameMap(c)
+					if nerr := nestedEncode(c, &zoo.TimeCarrier{T: time.UnixMilli(77), L: []time.Time{time.Unix(5, 0), time.UnixMilli(-9)}}, nm, plain); nerr != nil {
+						directFail(t, "C10", map[string]interface{}{"stream_pad": "0", "whole_seconds": whole, "nested": true}, "C10 timestamps: %v", nerr)
+					}
 				}
 				r.EvalN(int64(len(l)))
 				r.NonTrivial(av.Hash(fmt.Sprint("stream", pad, whole)))
